@@ -385,7 +385,7 @@ def run(ck):
     stats = {"runs": 0, "checks": 0, "verdicts_compared": 0, "orders": set(), "jobs": {}, "failing_runs": 0,
              "status_hist": {}, "blocks": 0}
     samples = []
-    ntrees = 2 if q else 10
+    ntrees = 2 if q else 6
     jobs_list = [1, 5, 16] if q else list(range(1, 17))
     for tr in range(ntrees + 1):
         barrier = tr == ntrees      # last: the tree whose 16 tasks end at the same moment
@@ -417,10 +417,10 @@ def run(ck):
         stats["checks"] += len(specs)
         reference = None      # blocks of the first run (-j 1), by test name
         # the last tree is also run repeatedly with the largest number of jobs (many short commands in parallel)
-        stress = [16] * (3 if q else 30) if tr == ntrees - 1 else []
+        stress = [16] * (3 if q else 20) if tr == ntrees - 1 else []
         jl = jobs_list if (not q or tr == 0) else [1, 16]
         if barrier:
-            jl, stress = [16] * (4 if q else 25), []
+            jl, stress = [16] * (4 if q else 15), []
         for j in jl + stress:
             yseed = rng.randrange(1, 2 ** 31) if j > 1 else 0
             th = release_when_ready(root, min(j, len(specs))) if barrier else None
